@@ -21,9 +21,10 @@ def probe_domain():
              L(S(":functions"), L(S("f"), *typed([["?a", "t1"]])), L(S("g"))), *acts)
 
 
-def probe_case(cid, eps, magnitudes):
-    """states with f(o1) = m and g = m + k half-tolerances, k in -4..4, for each magnitude"""
-    half = Fraction(eps) / 2
+def probe_case(cid, eps, magnitudes, half=None):
+    """states with f(o1) = m and g = m + k half-tolerances, k in -4..4, for each magnitude
+    (half: the step to use instead, for a tolerance of zero)"""
+    half = Fraction(half) if half is not None else Fraction(eps) / 2
     states = []
     for m in magnitudes:
         for k in (-4, -2, -1, 0, 1, 2, 4):
